@@ -495,6 +495,19 @@ def _sp_sumf(ex, node, st):
     return Val(rty, f(*([A] + [p.term for p in pvals] + [n])))
 
 
+def _sp_at_entry(ex, node, st):
+    """at_entry('2', e): value of e when loop 2 was reached (before its first
+    iteration)"""
+    ordn = 'entry:' + node.args[0].value
+    if ordn not in st.heads:
+        raise SpecError('at_entry(%r): loop not reached on this path' % node.args[0].value)
+    sub = st.fork()
+    sub.env = dict(st.heads[ordn])
+    sub.env.update(st.qvars)
+    sub.bound = dict()
+    return ex.ev(node.args[1], sub)
+
+
 def _sp_implies(ex, node, st):
     a = truthy(ex.ev(node.args[0], st))
     saved = list(st.guards)
@@ -590,7 +603,7 @@ def _sp_lookup(ex, node, st):
     return ex.subscript(m, k, st)
 
 
-_SPEC_PRIMS = {'old': _sp_old, 'sumf': _sp_sumf, 'count': _sp_count, 'aslist': _sp_aslist, 'at_head': _sp_at_head, 'implies': _sp_implies, 'iff': _sp_iff,
+_SPEC_PRIMS = {'old': _sp_old, 'at_entry': _sp_at_entry, 'sumf': _sp_sumf, 'count': _sp_count, 'aslist': _sp_aslist, 'at_head': _sp_at_head, 'implies': _sp_implies, 'iff': _sp_iff,
                'forall': _sp_forall, 'exists': _sp_exists,
                'bound': _sp_bound, 'is_some': _sp_some, 'val': _sp_val,
                'ite': _sp_ite, 'indom': _sp_domain, 'at': _sp_lookup,
@@ -1083,7 +1096,12 @@ def _m_floor(ex, node, st):
         b = ex.num(st, ex.ev(arg.right, st))
         ex.fail(st, coerce(b, TReal).term == 0, 'ZeroDivisionError')
         if a.ty == TInt and b.ty == TInt:
-            return Val(TInt, C.floordiv_int(a.term, b.term))
+            q = Val(TInt, C.floordiv_int(a.term, b.term))
+            # consequences of the definition linear arithmetic can use
+            st.assume(z3.Implies(z3.And(b.term > 0, a.term >= 0), q.term >= 0))
+            st.assume(z3.Implies(z3.And(b.term > 0, a.term >= b.term), q.term >= 1))
+            st.assume(z3.Implies(z3.And(b.term > 0, a.term >= 0, a.term < b.term), q.term == 0))
+            return q
         q = fresh(TInt, 'floor')
         ar, br = coerce(a, TReal).term, coerce(b, TReal).term
         st.assume(z3.Implies(br > 0, z3.And(z3.ToReal(q.term) * br <= ar,
